@@ -55,9 +55,27 @@ def categorise(case, outlier_ids=None):
             absent = True
         else:
             absent = False
+        # a feed row whose count for ONE estimand is missing (NaN cell): only generated for the conformal estimators
+        nan_col = f.get("nan")
+        if nan_col is not None and nan_col in case["req"]["estimands"]:
+            if p["hu"] == "drop":
+                # the whole row is dropped from the model's data; the unit is then passed through like a unit that
+                # has no baseline (its county / district come from its id), without a count for that estimand
+                county, dist = parse_unexpected(case, u["id"])
+                rt = f["rd"] + f["rg"] + f["ro"]
+                res = {"dem": f["rd"], "gop": f["rg"], "turnout": rt, "margin": f["rd"] - f["rg"], "weights": rt}
+                res[nan_col] = None
+                recs.append(
+                    {"id": u["id"], "st": u["st"], "county": county, "cls": None, "dist": dist, "baseline": False, "absent": False,
+                     "cat": UNEXPECTED, "reasons": [UNEXPECTED], "above": f["pev"] >= p["thr"], "reporting": 0, "pev": f["pev"],
+                     "res": res, "bw": None, "tf": None, "b": None, "nan_cell": nan_col}
+                )
+                continue
+            # policy `zero`: the missing count is 0 and the unit counts as not reporting at all
+            f = dict(f, pev=0, _turnout=f["rd"] + f["rg"] + f["ro"], **{"rd" if nan_col == "dem" else "rg": 0})
         bt = u["bd"] + u["bg"] + u["bo"]
         bw = (u["bd"] + u["bg"]) if p["margin_mode"] else bt
-        rt = f["rd"] + f["rg"] + f["ro"]
+        rt = f.get("_turnout", f["rd"] + f["rg"] + f["ro"])  # the feed's turnout column is its own number
         rw = (f["rd"] + f["rg"]) if p["margin_mode"] else rt
         above = f["pev"] >= p["thr"]
         tf = (rw / bw) if bw != 0 else 0.0
